@@ -6,9 +6,10 @@ cd $wt || exit 2
 export CARGO_TARGET_DIR=$wt/target CARGO_NET_OFFLINE=true
 git checkout -q -- . ; rm -f embedded-cli/tests/seed_demo.rs
 git apply seeded/$n/patch.diff || { echo "PATCH DOES NOT APPLY"; exit 2; }
-echo "== full suite with patch"; cargo test --workspace --offline 2>&1 | grep -E "^test result|FAILED|error(\[|:)" | sort | uniq -c
+REL=$(grep -q -- "--release" seeded/$n/notes.md 2>/dev/null && echo --release)
+echo "== full suite with patch"; [ -n "$REL" ] && cargo test --workspace --offline --release 2>&1 | grep -E "FAILED|error(\[|:)" | head -3; cargo test --workspace --offline 2>&1 | grep -E "^test result|FAILED|error(\[|:)" | sort | uniq -c
 cp seeded/$n/$demo embedded-cli/tests/seed_demo.rs
-echo "== demo with patch (must fail)"; cargo test -p embedded-cli --offline --test seed_demo 2>&1 | grep -E "^test result|error(\[|:)" | head -3
+echo "== demo with patch (must fail)"; cargo test -p embedded-cli --offline $REL --test seed_demo 2>&1 | grep -E "^test result|error(\[|:)" | head -3
 git checkout -q -- .
-echo "== demo without patch (must pass)"; cargo test -p embedded-cli --offline --test seed_demo 2>&1 | grep -E "^test result|error(\[|:)" | head -3
+echo "== demo without patch (must pass)"; cargo test -p embedded-cli --offline $REL --test seed_demo 2>&1 | grep -E "^test result|error(\[|:)" | head -3
 rm -f embedded-cli/tests/seed_demo.rs; git status --short | grep -v seeded | head
